@@ -2,7 +2,7 @@
    critical sections (pkg/in10nmem/impl.go).  Definitions only.
 
    One action = one lock-delimited step of one goroutine:
-     Update        AUpdStore (nb.Lock: store offset)            ; AUpdEnq  (events <- e)
+     Update        AUpdStore (nb.Lock: store offset)            ; AUpdEnq  (events <- e; blocking: enabled only while the queue has room)
      Subscribe     ASubReg  (nb.Lock: checks, subscription, toSubscribe[ch]=channel) ; ASubMark (hook window only) ; ASubEnq
      Unsubscribe   AUnsReg  (nb.Lock: remove subscription, toSubscribe[ch]=nil)      ; AUnsMark (hook window only) ; AUnsEnq
    (in the unrepaired shape of the code, mark_early = false, the toSubscribe write is the A*Mark step)
@@ -111,6 +111,7 @@ Inductive out :=
 Inductive action :=
 | ANewChan (subj : N)
 | AUpdStore (p o : N) | AUpdEnq (p : N)
+| ABlocked (p : N)   (* observation: the Update of p, released into its enqueue with the queue full, did not return *)
 | ASubReg (c p : N) | ASubMark (c p : N) | ASubEnq (c p : N)
 | AUnsReg (c p : N) | AUnsMark (c p : N) | AUnsEnq (c p : N)
 | AClnTerm (c : N) | AClnReg (c p : N) | AClnFin (c : N)
@@ -126,6 +127,10 @@ Inductive action :=
 Definition mark_early : bool := in10n_mark_under_broker_lock.
 (* NewChannel applies ChannelsPerSubject to a subject's first channel too (fix of C20-Q0) *)
 Definition first_checked : bool := in10n_first_channel_checked.
+
+(* Update queues its event with an unconditional blocking send; false = a select with default,
+   i.e. the event is dropped when the queue is full *)
+Definition upd_blocking : bool := in10n_update_enqueue_blocking.
 
 (* ---- the steps ---- *)
 Definition new_chan (subj : N) (s : state) : state * out :=
@@ -151,6 +156,15 @@ Definition upd_store (p o : N) (s : state) : state :=
   let s1 := ensure_proj p s in
   let x := getp p s1 in
   set_calls (putp p (mkProj o (p_tosub x) (p_subd x)) s1) (KUpd p :: calls s1).
+
+(* the enqueue step of Update; [blk] = blocking send *)
+Definition upd_enq_gen (blk : bool) (p : N) (s : state) : option state :=
+  if has (KUpd p) (calls s) then
+    if can_enq s then Some (enq p (set_calls s (rm1 (KUpd p) (calls s))))
+    else if blk then None                                  (* blocked until the notifier dequeues *)
+    else Some (set_calls s (rm1 (KUpd p) (calls s)))       (* select/default: the event is dropped *)
+  else None.
+Definition upd_enq := upd_enq_gen upd_blocking.
 
 Definition mark (c p : N) (b : bool) (s : state) : state :=
   let x := getp p s in putp p (mkProj (p_off x) (set c b (p_tosub x)) (p_subd x)) s.
@@ -281,7 +295,8 @@ Definition step (s : state) (a : action) : option (state * out) :=
   match a with
   | ANewChan subj => Some (new_chan subj s)
   | AUpdStore p o => Some (upd_store p o s, ONone)
-  | AUpdEnq p => if has (KUpd p) (calls s) && can_enq s then Some (enq p (set_calls s (rm1 (KUpd p) (calls s))), ONone) else None
+  | AUpdEnq p => match upd_enq p s with Some s' => Some (s', ONone) | None => None end
+  | ABlocked p => if has (KUpd p) (calls s) && negb (can_enq s) && upd_blocking then Some (s, ONone) else None
   | ASubReg c p => Some (sub_reg c p s)
   | ASubMark c p => if has (KSub c p false) (calls s)
                     then Some (set_calls (mark_late c p true s) (repl (KSub c p false) (KSub c p true) (calls s)), ONone) else None
